@@ -39,7 +39,7 @@ JOBS = min(NPROC, 8)
 FLAVOUR = "asanrec"
 build.FLAVOURS.setdefault(FLAVOUR, dict(cc="clang", cflags="-g -O1 -fsanitize=address,undefined -fsanitize-recover=undefined "
                                         "-fno-omit-frame-pointer -D" + build.GUARD, ldflags="-fsanitize=address,undefined"))
-MAX_FSIZE = 512 << 20           # a tool may not write more than this to any one file (EFBIG; SIGXFSZ ignored)
+MAX_FSIZE = 128 << 20           # a tool may not write more than this to any one file (EFBIG; SIGXFSZ ignored)
 
 Inv = collections.namedtuple("Inv", "id tool mode argv core")
 TOOLBIN = {"@e2fsck": "e2fsck/e2fsck", "@debugfs": "debugfs/debugfs", "@dumpe2fs": "misc/dumpe2fs", "@tune2fs": "misc/tune2fs",
@@ -375,8 +375,9 @@ class Runner:
         t0 = time.time()
         tmo = False
         errp = os.path.join(d, "stderr.txt")
-        with open(errp, "wb") as errf:
-            p = subprocess.Popen(argv, stdin=subprocess.DEVNULL, stdout=subprocess.DEVNULL, stderr=errf, env=self.sanenv(logbase), cwd=d,
+        # stdout goes to a regular file so that the output cap (RLIMIT_FSIZE) also bounds `cat` of a file with a huge i_size
+        with open(errp, "wb") as errf, open(os.path.join(d, "stdout.txt"), "wb") as outf:
+            p = subprocess.Popen(argv, stdin=subprocess.DEVNULL, stdout=outf, stderr=errf, env=self.sanenv(logbase), cwd=d,
                                  preexec_fn=_preexec)
             # The bound is CPU time of the tool (load-independent: 16 cores are shared with other checks), with a wall-clock
             # backstop for a process that blocks without computing.
@@ -485,7 +486,7 @@ def finding_keys(r, failed):
          mem:<kind>:<f1<f2>        memory-class sanitizer report, top two in-tree frames (no tool: one library defect reached
                                    from several tools is one finding; the tools are listed in the finding's text)
          ub:<kind>                 other undefined behaviour (not in the property's list), aggregated per kind; sites in evidence
-         sig:<tool>:<n>:<detail>   fatal signal without a report          hang:<tool>:<frames | invocation>
+         sig:<tool>:<n>:<detail>   fatal signal without a report          hang:<tool>:<invocation>
          exit:<tool>:<mode>:<code> undocumented exit status"""
     keys = []
     if "NoMemoryError" in failed:
@@ -495,7 +496,7 @@ def finding_keys(r, failed):
     if "NoUndefinedBehaviour" in failed:
         keys += ["ub:" + k for k in r["san"] if k not in MEM_KINDS]
     if "TerminatedWithinBound" in failed:
-        keys.append("hang:%s:%s" % (r["tool"], "<".join(r["hang_frames"][:2]) if r["hang_frames"] else r["inv"]))
+        keys.append("hang:%s:%s" % (r["tool"], r["inv"]))          # where it was when stopped (hang_frames) varies from run to run: not in the key
     if "NoSignal" in failed:
         last = [l for l in r["stderr"].splitlines() if l.strip() and not l.startswith(("Signal (", "/", "e2fsck(", "["))]
         keys.append("sig:%s:%d:%s" % (r["tool"], r["sig"] or r["caught"], _norm(last[-1])[:80] if last else r["mode"]))
@@ -660,6 +661,37 @@ def load_known(vd):
                     vd.known.setdefault(k, d)
 
 
+def regression_inputs(b, work, bases, have):
+    """The inputs of replays/C06/fixed_*.json (defects repaired by a fix: commit) are part of every tier, each with the
+    invocation that showed the defect: the check re-reports a repaired defect the moment it returns."""
+    import glob
+    recs = []
+    for f in sorted(glob.glob(os.path.join(VERIF, "replays", PID, "fixed_*.json"))):
+        try:
+            rp = json.load(open(f))["replay"]
+            recs.append((os.path.basename(f), rp["input"], rp["inv"]))
+        except (ValueError, KeyError):
+            die_broken("regression input %s does not parse" % f)
+    missing = set(u["base"] for _, u, _ in recs) - set(bases)
+    if missing:
+        try:
+            bases.update(G.build_bases(b, tool_env(b), os.path.join(work, "bases_regression"), "quick", seed(), want=missing))
+        except G.GenError as e:
+            die_broken("input generator failed on a regression base: %s" % e)
+    out = []
+    for name, u, invid in recs:
+        if u["base"] not in bases:
+            die_broken("regression input %s refers to an unknown base artefact %s" % (name, u["base"]))
+        inv = [i for i in invocations_for(bases[u["base"]]) if i.id == invid]
+        if not inv:
+            die_broken("regression input %s refers to an unknown invocation %s" % (name, invid))
+        u = dict(u, family="regression:" + u.get("family", "?").split(":")[0])
+        if u["id"] in have:
+            u["id"] += "~regression"
+        out.append((u, inv))
+    return out
+
+
 QUICK_CAPS = {"asis:c13": 32, "asis": 40, "struct1": 10, "structN": 6, "unstruct": 2}
 
 
@@ -694,6 +726,7 @@ def run(tier):
         if tier == "quick":
             U = G.sample_quick(U, seed(), QUICK_CAPS)
         pl = plan(U, bases, tier, seed())
+        pl += regression_inputs(b, work, bases, set(u["id"] for u in U))
         t_gen = time.time() - t0
         t0 = time.time()
         results = execute(b, work, bases, pl)
@@ -785,6 +818,8 @@ def judge(ev, vd, b, work, bases, U, pl, results, tier, timing):
                 die_broken("oracle disagreement: confirmation run of %s predicted rejected but Trace_ToolExit accepts it" % sig)
             tools = sorted(set(results[k]["tool"] for k in groups[sig]))
             head = next((h for kk, fr, h, fatal in r2["reports"] if sig.split(":")[1] == kk), "")
+            if sig.startswith("hang:"):
+                head = "stopped in " + ("<".join(r2["hang_frames"]) or "?")
             what = "%s; e.g. %s [%s] on %s; failing clauses %s (exit %d, signal %d, intercepted %d, timeout %d); seen in %d runs of %s%s" % (
                 sig, inv.tool, " ".join(r2["argv"][1:])[:160], u["id"], sorted(bad2[j]), r2["code"], r2["sig"], r2["caught"], r2["tmo"], n,
                 ",".join(tools), "; " + head if head else "")
@@ -873,12 +908,17 @@ def replay(path):
         print("%s on %s: exit %d signal %d intercepted %d timeout %d reports %s" % (" ".join(r["argv"]), u["id"], r["code"], r["sig"], r["caught"], r["tmo"], r["san"]))
         for rep in r["reports"]:
             print("   ", rep[2], "<".join(rep[1]))
-        if d.get("key") and 0 in bad and d["key"] not in finding_keys(r, bad[0]):
-            print("(the recorded finding %s did not come back; other findings did)" % d["key"])
         if 0 in bad:
-            print("failing clauses (TLC): %s   findings: %s" % (sorted(bad[0]), finding_keys(r, bad[0])))
-            print("VIOLATION property=%s replay=%s" % (PID, path))
-            return 1
+            keys = finding_keys(r, bad[0])
+            print("failing clauses (TLC): %s   findings: %s" % (sorted(bad[0]), keys))
+            ev = Evidence(PID, "quick", "exploration")
+            vd = Verdict(PID, ev)
+            load_known(vd)
+            other_known = [k for k in keys if k in vd.known and k != d.get("key")]
+            if d.get("key") in keys or any(k not in vd.known for k in keys):
+                print("VIOLATION property=%s replay=%s" % (PID, path))
+                return 1
+            print("(the recorded finding did not come back; only known findings remain: %s)" % other_known)
         print("replay accepted")
         return 0
     finally:
